@@ -364,6 +364,13 @@ Section Model.
     else atanh_real (fst z).
   Definition catanh_ (z : C) : C := atanh_fb z.
 
+  (* ------------------------------------------------------------------ proj (C99 cproj): the identity on finite values *)
+  (* isinf as a/math.h itself falls back to: x + x == x && x != 0; A_REAL_INF = DBL_MAX * DBL_MAX *)
+  Definition isinf_ (x : T) : bool := (x + x ==? x) && (x !=? #0).
+  Definition real_inf : T := ofD O 9007199254740991 971 * ofD O 9007199254740991 971.
+  Definition proj_ (z : C) : C :=
+    if isinf_ (fst z) || isinf_ (snd z) then (real_inf, if snd z <? #0 then - #0 else #0) else z.
+
   Definition asech_ (z : C) : C := cacosh_ (inv_ z).
   Definition acsch_ (z : C) : C := casinh_ (inv_ z).
   Definition acoth_ (z : C) : C := catanh_ (inv_ z).
